@@ -59,12 +59,23 @@ type c01Prog struct {
 	Routes [][]*c01N  `json:"routes"`
 }
 
-// c01Case = program + inputs.
+// c01Req is one earlier request of a history: route index and path parameter.
+type c01Req struct {
+	Route int    `json:"route"`
+	P     string `json:"p"`
+}
+
+// c01Case = program + inputs (+ the history of the reused interpreter).
 type c01Case struct {
 	Layer string  `json:"layer"`
 	Prog  c01Prog `json:"prog"`
 	P     string  `json:"p"`              // path parameter
 	Body  *c01N   `json:"body,omitempty"` // literal for request-body field b (nil: no body)
+	// Hist (layer L8): the requests evaluated, in this order, on the reused
+	// interpreter before the judged request (the last route with P).  Empty:
+	// the default history (every earlier route once; a single-route program
+	// evaluated twice).
+	Hist []c01Req `json:"hist,omitempty"`
 }
 
 type c01NAlias c01N
@@ -223,6 +234,7 @@ func (c c01Case) clone() c01Case {
 	d := c
 	d.Prog = c.Prog.clone()
 	d.Body = c.Body.clone()
+	d.Hist = append([]c01Req(nil), c.Hist...)
 	return d
 }
 
@@ -600,6 +612,26 @@ func c01Canon(c c01Case) string {
 	return s + in
 }
 
+// c01HistCanon: ` after=[r0 "INT" gave_error, r0 "INT" gave_value]` for a
+// case with an explicit history, "" otherwise.  outcomes = what each request
+// of the history gave when the case was judged (value / error), so that a
+// finding key names the scenario: an earlier request that was refused vs one
+// that was answered.
+func c01HistCanon(c c01Case, outcomes []string) string {
+	if len(c.Hist) == 0 {
+		return ""
+	}
+	var p []string
+	for i, h := range c.Hist {
+		t := fmt.Sprintf("r%d %s", h.Route, c01ShapeOfString(h.P))
+		if i < len(outcomes) {
+			t += " gave_" + outcomes[i]
+		}
+		p = append(p, t)
+	}
+	return " after=[" + strings.Join(p, ", ") + "]"
+}
+
 func c01ShapeOfString(s string) string {
 	if _, err := strconv.ParseInt(s, 10, 64); err == nil {
 		return "\"INT\""
@@ -710,9 +742,53 @@ func c01Shrinks(c c01Case) []c01Case {
 			out = append(out, d)
 		}
 	}
-	// drop a leading route
-	if len(c.Prog.Routes) > 1 {
+	// drop a leading route (with an explicit history: any route no request of
+	// the history goes to; the history's route indices follow)
+	if len(c.Prog.Routes) > 1 && len(c.Hist) == 0 {
 		add(func(d *c01Case) bool { d.Prog.Routes = d.Prog.Routes[1:]; return true })
+	}
+	if len(c.Hist) > 0 {
+		last := len(c.Prog.Routes) - 1
+		for k := 0; k < last; k++ {
+			k := k
+			used := false
+			for _, h := range c.Hist {
+				if h.Route == k {
+					used = true
+				}
+			}
+			if used {
+				continue
+			}
+			add(func(d *c01Case) bool {
+				d.Prog.Routes = append(d.Prog.Routes[:k:k], d.Prog.Routes[k+1:]...)
+				for i := range d.Hist {
+					if d.Hist[i].Route > k {
+						d.Hist[i].Route--
+					}
+				}
+				return true
+			})
+		}
+		// drop one request of the history (never the last one: an empty history
+		// means the default history, a different scenario)
+		if len(c.Hist) > 1 {
+			for k := range c.Hist {
+				k := k
+				add(func(d *c01Case) bool {
+					d.Hist = append(d.Hist[:k:k], d.Hist[k+1:]...)
+					return true
+				})
+			}
+		}
+		// send a request of the history to the judged route instead (so that the
+		// route and the functions only it used can go)
+		for k, h := range c.Hist {
+			k := k
+			if h.Route != last {
+				add(func(d *c01Case) bool { d.Hist[k].Route = last; return true })
+			}
+		}
 	}
 	for i := range c.Prog.Fns {
 		i := i
